@@ -45,6 +45,13 @@ def instances(tier, seed):
         for wtype, w in variants:
             sp = dict(s, wtype=wtype, w=list(w), a=[4, 8] if tier == 'quick' else [4, 8])
             out.append({'id': mpslib.prog_id(sp), 'spec': sp, 'wseed': seed})
+            if wtype == 'layer' and s == progs[0]:
+                # the network input searches other precisions than the layers' activations
+                sp2 = dict(sp, a_in=[8] if w == (2, 8) else [2, 4, 8])
+                out.append({'id': mpslib.prog_id(sp2), 'spec': sp2, 'wseed': seed})
+                # selection coefficients with a tie for the maximum in some decision (e.g. a uniform initialisation)
+                sp3 = dict(sp, ties=True)
+                out.append({'id': mpslib.prog_id(sp3), 'spec': sp3, 'wseed': seed})
             if wtype == 'layer' and not s.get('bn'):
                 # hard-sampling mode reached through an option update while training (the statement: "eval or hard-sampling mode")
                 out.append({'id': mpslib.prog_id(sp) + ':train+hard', 'spec': sp, 'wseed': seed, 'train_hard': True})
@@ -196,7 +203,7 @@ def run_instance(p):
                     q.alpha.copy_(torch.tensor(rng.permutation(q.alpha.shape[0]).astype('float32') / 4).reshape(q.alpha.shape))
 
     def fn(ex):
-        pairs, sy = mpslib.fresh_alphas(m, ex, only=only)
+        pairs, sy = mpslib.fresh_alphas(m, ex, only=only, ties=bool(spec.get('ties')))
         with SymMode(), swapped_params(pairs), mpslib.saved_thetas(m):
             m(torch.zeros((1,) + tuple(shape)))           # eval mode: forks on every arg-max
             costs = {k: st.scalar_of(m.get_cost(k)) for k in ('params_bit', 'ops_bit')}
